@@ -113,3 +113,73 @@ def _fresh_tiling(interp, name):
 
 
 register_type("StudyTiling", _fresh_tiling)
+
+
+# ---------------------------------------------------------------------------
+# tile_image: every written tile shows, in display orientation, exactly its rectangle of the image
+
+import z3  # noqa: E402
+from pyvc import ops  # noqa: E402
+from pyvc.core import z3num, fresh_name  # noqa: E402
+from pyvc.values import Inst as _I, Opaque as _Opaque  # noqa: E402
+from pyvc.ops import simp  # noqa: E402
+from . import image as im  # noqa: E402
+from . import merge as _merge  # noqa: E402,F401  (PyramidIO event contracts, from_array inline)
+
+for _qn in ("toasty.image.Image.height", "toasty.image.Image.width", "toasty.image.Image.shape",
+            "toasty.pyramid.PyramidIO.get_default_vertical_parity_sign", "toasty.image.get_format_vertical_parity_sign"):
+    contract(_qn)(lambda c: c.inline())
+
+TILE_CASES = [{"mode": m, "bottom_up": bu} for m in im.MODES for bu in (False, True)]
+
+
+def tile_image_setup(interp, path):
+    case = interp._case
+    me = _fresh_tiling(interp, "self")
+    image = im.mk_image(interp, "image", case["mode"], me.fields["_height"], me.fields["_width"])
+    pio = _I("PyramidIO", module="toasty.pyramid", fields={
+        "_base_dir": "base", "_scheme": "{1}/{3}/{3}_{2}", "_default_format": "fits" if case["bottom_up"] else "npy"})
+    return {"self": me, "image": image, "pio": pio, "cli_progress": False}
+
+
+def tile_image_trace(m, path, fr, env, outcome, value, exc):
+    case = m._case
+    bu = case["bottom_up"]
+    ev = path.events
+    image = fr.entry_env.lookup("image")
+    for si in [i for i, e in enumerate(ev) if e[0] == "loop_iter" and e[1] == 0]:
+        seg = ev[si + 1:]
+        if not any(e[0] == "loop_iter_end" and e[1] == 0 for e in seg):
+            continue
+        pos, w, h, ix, iy, tx, ty = fr.last_loop_item[0]
+        writes = [e for e in seg if e[0] == "call" and e[1].endswith("PyramidIO.write_image")]
+        ok = len(writes) == 1
+        path.oblige(m.oblname("one_tile_written_per_populated_position"), z3.BoolVal(ok), kind="trace", assume_after=False)
+        if not ok:
+            continue
+        args = writes[0][2]
+        same_pos = ops.equals(m, args["pos"], pos)
+        path.oblige(m.oblname("tile_written_at_its_position_in_the_default_format"),
+                    ops.conj([same_pos, args.get("format") is None]), kind="trace", assume_after=False)
+        B = args["image"]
+        R, C = z3.Int(fresh_name("R")), z3.Int(fresh_name("C"))
+        saved = list(path.pc)
+        path.assume(z3.And(R >= 0, R < 256, C >= 0, C < 256))
+        br = simp(255 - R) if bu else R
+        inside = z3.And(R >= z3num(ty), R < z3num(ty) + z3num(h), C >= z3num(tx), C < z3num(tx) + z3num(w))
+        sr, sc = simp(z3num(iy) + (R - z3num(ty))), simp(z3num(ix) + (C - z3num(tx)))
+        path.oblige(m.oblname("displayed_rectangle_shows_the_image_pixels"),
+                    ops.implies(inside, im.pix_takes_source(m, B, br, C, image, sr, sc)), kind="trace", assume_after=False)
+        path.oblige(m.oblname("everything_outside_the_rectangle_is_undefined"),
+                    ops.implies(z3.Not(inside), im.pix_blank(m, B, br, C)), kind="trace", assume_after=False)
+        path.pc[:] = saved
+
+
+@contract("toasty.study.StudyTiling.tile_image")
+def _(c):
+    c.cases(*TILE_CASES)
+    c.setup(tile_image_setup)
+    c.requires(INV)
+    c.module_globals(SUPPORTED_FORMATS=("png", "jpg", "npy", "fits"))
+    c.loop(0, summarise="stateless")
+    c.on_path(tile_image_trace)
